@@ -17,7 +17,8 @@ None == <<0, 0>>
 
 Fresh == [lastCommit |-> -1, commitFailed |-> FALSE, lastRound |-> -1, obs |-> <<>>,
           wmBegin |-> None, wmDone |-> None, cancelled |-> FALSE, down |-> FALSE,
-          deadProps |-> {}, rejected |-> {}, consumerPanics |-> 0, okSync |-> -1, mainStarts |-> 0, workerStarts |-> 0, garbage |-> FALSE]
+          deadProps |-> {}, rejected |-> {}, consumerPanics |-> 0, okSync |-> -1, mainStarts |-> 0, workerStarts |-> 0, garbage |-> FALSE,
+          realtimer |-> FALSE, timeoutUs |-> 0, tcom |-> <<>>]
 
 Init == l = 1 /\ s = Fresh
 
@@ -26,7 +27,9 @@ Target(e) == IF e.ev \in {"main.election.begin", "main.election.done", "main.ele
              ELSE <<e.h + 1, 0>>
 
 Step(e) ==
-  CASE e.ev = "init" -> [Fresh EXCEPT !.garbage = e.garbage]
+  CASE e.ev = "init" -> [Fresh EXCEPT !.garbage = e.garbage, !.realtimer = e.realtimer, !.timeoutUs = e.timeout_us]
+    \* the first time the committee request of height h returned: the term of h is created, and its timer armed, after that moment
+    [] e.ev = "spi.leave" /\ e.kind = "committee" -> IF e.h \in DOMAIN s.tcom THEN s ELSE [s EXCEPT !.tcom = (e.h :> e.t) @@ @]
     [] e.ev = "sample" ->
          LET prev == IF e.obs \in DOMAIN s.obs THEN s.obs[e.obs] ELSE None IN
          [s EXCEPT !.obs = (e.obs :> <<e.h, e.v>>) @@ s.obs]
@@ -53,6 +56,12 @@ Judge(e) ==
   \* (C12: wedged for good; C14: a sync that never takes effect; C15: a consumer call nobody releases; C16: no shutdown)
   /\ Chk(e.ev # "hang", "c12_run_did_not_end") /\ Chk(e.ev # "hang", "c14_run_did_not_end")
   /\ Chk(e.ev # "hang", "c15_run_did_not_end") /\ Chk(e.ev # "hang", "c16_run_did_not_end")
+  \* ---------------- C19 on the running node with the library's own timer (configured timeout of view 0: 2.5 ms): the trigger of
+  \* (h, 0) is not handled before that timeout has passed since the timer can have been armed.  Times are microseconds of the
+  \* monotonic clock; the anchor (the committee request of h returned) is logged BEFORE the term arms its timer, so the
+  \* difference under-estimates nothing.  (Runs in which the worker was restarted are left out: a second term of one height.)
+  /\ Chk((e.ev = "main.election.begin" /\ e.v = 0 /\ s.realtimer /\ s.workerStarts <= 1 /\ e.h \in DOMAIN s.tcom) =>
+           e.t - s.tcom[e.h] >= s.timeoutUs, "c19_trigger_before_the_configured_timeout")
   \* ---------------- C13
   /\ Chk(e.ev = "cb.commit" => e.h > s.lastCommit, "c13_commit_heights_not_increasing")
   /\ Chk(e.ev = "cb.round" => e.h > s.lastRound, "c13_round_heights_not_increasing")
